@@ -163,6 +163,7 @@ def run_shard(args):
 def replay_case(mod, sub_name, case, findings):
     """Run one stored case; returns (status, message, tags)."""
     sub = find_sub(mod, sub_name)
+    case = common.unjsonable(case)
     rec = NullRecorder()
     rec._matcher = lambda tg: match_known(mod.ID, sub_name, tg, findings)
     try:
